@@ -49,7 +49,7 @@ var c12Positions = []struct {
 }
 
 func init() {
-	floor := []string{"item.async", "item.async-union", "item.async-cte", "item.async-multidim", "item.once-multidim", "item.fuse", "item.fuse-alias", "item.setvar", "rich", "parjoin"}
+	floor := []string{"item.async", "item.async-union", "item.async-cte", "item.async-multidim", "item.once-multidim", "item.async-derived", "item.fuse", "item.fuse-alias", "item.setvar", "rich", "parjoin"}
 	for _, f := range c12Forms {
 		floor = append(floor, "form."+f.name)
 	}
@@ -131,6 +131,26 @@ func c12Judge(c *fw.Case, d *richDoc, sql string, multiset bool, feats []string,
 			return
 		}
 	}
+	// the same Query object executed twice must also agree with itself
+	if q, err := genql.New(d.fresh(), sql, opts()...); err == nil {
+		r1 := execBuilt(q)
+		waitBackground()
+		r2 := execBuilt(q)
+		waitBackground()
+		if r1.OK() && !strings.Contains(sql, "SETVAR") {
+			same := r2.OK() && (val.SameSeq(r1.Rows, r2.Rows) || multiset && val.SameMultiset(r1.Rows, r2.Rows))
+			if !same {
+				det["first_exec"], det["second_exec"] = r1.Describe(), r2.Describe()
+				c.Violate("reexec-differs", fmt.Sprintf("executing the same Query object a second time returned something else: %s vs %s", short(fmt.Sprint(r2.Describe()), 200), short(fmt.Sprint(r1.Describe()), 200)), det)
+				return
+			}
+			if probs := val.PlainWalk(r2.Rows, "<-"); len(probs) > 0 {
+				det["problems"] = probs
+				c.Violate("not-plain", fmt.Sprintf("second execution of the same Query object is not plain data: %s", strings.Join(probs, "; ")), det)
+				return
+			}
+		}
+	}
 	c.Evals(1 + R)
 	// non-trivial: some non-NULL value besides rid
 	nt := false
@@ -168,12 +188,16 @@ func c12Matrix(c *fw.Case) {
 		d = newRichDoc(c)
 	}
 	nf, np := len(c12Forms), len(c12Positions)
-	cell := c.Idx % (nf*np + 16)
+	cell := c.Idx % (nf*np + 20)
 	if cell >= nf*np {
 		// special select items
 		var sql string
 		var feat string
-		switch (cell - nf*np) % 8 {
+		switch (cell - nf*np) % 10 {
+		case 8:
+			sql, feat = "SELECT q.v, q.rid FROM (SELECT rid, ASYNC.VBG(n1) AS v FROM t1) q", "item.async-derived"
+		case 9:
+			sql, feat = "SELECT q.v AS a, (q.rid + 1) AS b FROM (SELECT rid, ASYNC.VBG(s1) AS v FROM t1 WHERE n1 >= 0) q", "item.async-derived"
 		case 6:
 			sql, feat = "SELECT a, ASYNC.VBG(a) AS v, SPINASYNC.VBG(b) FROM mm WHERE a >= 0", "item.async-multidim"
 		case 7:
